@@ -664,6 +664,72 @@ impl Exec {
                     Err(()) => "err".to_string(),
                 })
             }
+            ["new", "ctrl", rq, d, iid, cmd] => {
+                let rq = *rq == "1";
+                let d = *d == "1";
+                let iid = parse_byte(iid)?;
+                let cmd = parse_byte(cmd)?;
+                let cc = CommandCode::from(cmd);
+                if cc as u8 != cmd {
+                    return None;
+                }
+                let r = catch_unwind(|| MCTPControlMessageHeader::new(rq, d, iid, cc).0);
+                Some(match r {
+                    Ok(v) => hex(&v),
+                    Err(_) => panic_text(),
+                })
+            }
+            ["new", "transport", v] => {
+                let v = parse_byte(v)?;
+                let r = catch_unwind(|| MCTPTransportHeader::new(v).0);
+                Some(match r {
+                    Ok(v) => hex(&v),
+                    Err(_) => panic_text(),
+                })
+            }
+            ["new", "body", ic, t] => {
+                let ic = *ic == "1";
+                let t = parse_type(t)?;
+                let r = catch_unwind(|| MCTPMessageBodyHeader::new(ic, t).0);
+                Some(match r {
+                    Ok(v) => hex(&v),
+                    Err(_) => panic_text(),
+                })
+            }
+            ["new", "routing", t, sz, f, ph] => {
+                use libmctp::control_packet::RoutingInformationUpdateEntryType as E;
+                let t = match parse_byte(t)? {
+                    0 => E::SingleEndpointNotBridge,
+                    1 => E::EIDRangeIncludeBridge,
+                    2 => E::SingleEndpointBridge,
+                    3 => E::EIDRangeNotIncludeBridge,
+                    _ => return None,
+                };
+                let (sz, f, ph) = (parse_byte(sz)?, parse_byte(f)?, parse_byte(ph)?);
+                let r = catch_unwind(|| SMBusRoutingInformationUpdateEntry::new(t, sz, f, ph).0);
+                Some(match r {
+                    Ok(v) => hex(&v),
+                    Err(_) => panic_text(),
+                })
+            }
+            ["new", "pci", v] => {
+                let v = parse_hex_u64(v)? as u16;
+                Some(hex(&PCIMessageFormat::new(v).0))
+            }
+            ["new", "iana", v] => {
+                let v = parse_hex_u64(v)? as u32;
+                Some(hex(&IANAMessageFormat::new(v).0))
+            }
+            ["hdr", "smbus", id, dst] => {
+                let c = self.ctxs.get(*id)?;
+                let dst = parse_byte(dst)?;
+                Some(hex(&c.get_request().generate_smbus_header(dst).0))
+            }
+            ["hdr", "transport", id, dst] => {
+                let c = self.ctxs.get(*id)?;
+                let dst = parse_byte(dst)?;
+                Some(hex(&c.get_response().generate_transport_header(dst).0))
+            }
             ["conv", "cmd", b] => {
                 let b = parse_byte(b)?;
                 Some(format!("{:02x}", CommandCode::from(b) as u8))
